@@ -8,6 +8,8 @@ package main
 
 import (
 	"strings"
+
+	"github.com/antonmedv/expr/vm"
 )
 
 const ovSmall = 12
@@ -78,7 +80,13 @@ func (r *replayer) ovCase(c OvCase) {
 // not be refused for the budget.  Other disagreements belong to C01.
 func (r *replayer) budgetCase(c Case) {
 	lg := &Log{}
+	if r.reused == nil {
+		r.reused = map[string]*vm.VM{}
+	}
 	for _, m := range r.modes {
+		if r.reused[m.String()] == nil {
+			r.reused[m.String()] = &vm.VM{} // one VM value per mode for the whole corpus
+		}
 		prog, cg := CompileMode(c.Src, m)
 		if cg != nil {
 			if cg.Panic != "" || cg.Hang {
@@ -96,33 +104,44 @@ func (r *replayer) budgetCase(c Case) {
 				r.sum.Infra = append(r.sum.Infra, err.Error())
 				continue
 			}
-			restore := setBudget(rc.Budget)
-			g := RunMode(c.Src, prog, m, e, lg)
-			restore()
-			r.sum.Executions++
-			refused := !g.Ok && strings.Contains(g.Err, "memory budget exceeded")
-			why := ""
-			switch {
-			case g.Panic != "" || g.Hang:
-				why = "panic"
-			case g.Ok && !rc.Exp.Ok && rc.Exp.C == "budget":
-				why = "completed-over-budget"
-			case refused && rc.Exp.Ok:
-				why = "refused-under-budget"
-			case refused && !rc.Exp.Ok && rc.Exp.C != "budget":
-				why = "refused-under-budget"
-			case g.Ok != rc.Exp.Ok:
-				r.sum.Stats["non-budget-disagreement"]++
-			}
-			if !rc.Exp.Ok && rc.Exp.C == "budget" {
-				r.sum.Stats["reference-refuses"]++
-			} else {
-				r.sum.Stats["reference-admits"]++
-			}
-			if why != "" {
-				exp := rc.Exp
-				r.fail(Failure{Why: why, Src: c.Src, Mode: m.String(), Env: rc.Env, Budget: rc.Budget,
-					Exp: &exp, Got: &g, DevMatch: devMatches(g, rc.Dev, false)})
+			for pass := 0; pass < 2; pass++ {
+				restore := setBudget(rc.Budget)
+				var g Got
+				if pass == 0 {
+					g = RunMode(c.Src, prog, m, e, lg)
+				} else {
+					// the same run on a VM value that has performed every earlier run of the corpus
+					g = runOn(r.reused[m.String()], prog, m, e, lg)
+				}
+				restore()
+				r.sum.Executions++
+				refused := !g.Ok && strings.Contains(g.Err, "memory budget exceeded")
+				why := ""
+				switch {
+				case g.Panic != "" || g.Hang:
+					why = "panic"
+				case g.Ok && !rc.Exp.Ok && rc.Exp.C == "budget":
+					why = "completed-over-budget"
+				case refused && rc.Exp.Ok:
+					why = "refused-under-budget"
+				case refused && !rc.Exp.Ok && rc.Exp.C != "budget":
+					why = "refused-under-budget"
+				case g.Ok != rc.Exp.Ok:
+					r.sum.Stats["non-budget-disagreement"]++
+				}
+				if !rc.Exp.Ok && rc.Exp.C == "budget" {
+					r.sum.Stats["reference-refuses"]++
+				} else {
+					r.sum.Stats["reference-admits"]++
+				}
+				if why != "" {
+					exp := rc.Exp
+					if pass == 1 {
+						why = "reusedvm-" + why
+					}
+					r.fail(Failure{Why: why, Src: c.Src, Mode: m.String(), Env: rc.Env, Budget: rc.Budget,
+						Exp: &exp, Got: &g, DevMatch: devMatches(g, rc.Dev, false)})
+				}
 			}
 		}
 	}
